@@ -1,6 +1,6 @@
 """C04 - every operation terminates; losing the connection fails all pending work."""
 from facts import walk, callee_of, call_args, loc
-import hirq, anchors, absx, sem
+import hirq, anchors, absx, sem, driver
 
 EXPLANATION = ("L1 reply senders are owned only by the driver's two routing maps, the request tuple and the LdapOp::Search payload; the "
                "driver loop takes the driver by value, so every exit drops them; no mem::forget / ManuallyDrop / Box::leak / into_raw in "
@@ -8,7 +8,7 @@ EXPLANATION = ("L1 reply senders are owned only by the driver's two routing maps
                "arms leaves the loop, a stream error and a failed socket write return Err; L3 on the caller side every send / recv / await "
                "on a channel is propagated with `?`, matched into an Err return or (finish only) logged - never unwrapped, never retried; "
                "L4 the request send (with `?`) precedes every await in the operation issue point; L5 the Unbind arm shuts the socket down "
-               "and closes the sink before acknowledging, and the acknowledgement is sent for every non-Single operation; L6 the one-operation driver (StartTLS set-up) hands the connection back only on paths that have established that no reply is owed; L7 the transport wrapper's AsyncRead / AsyncWrite methods each delegate, per variant, to the same method of the wrapped stream (shutdown reaches the socket of every transport kind). Not decided: "
+               "and closes the sink before acknowledging, and the acknowledgement is sent for every non-Single operation; L6 the one-operation driver (StartTLS set-up) hands the connection back only on paths that have established that no reply is owed; L7 the transport wrapper's AsyncRead / AsyncWrite methods each delegate, per variant, to the same method of the wrapped stream (shutdown reaches the socket of every transport kind); L9 on every path of the request arm on which the operation is Unbind the driver loop is left, so the reply senders of operations still waiting are dropped. Not decided: "
                "liveness itself (tokio wakes waiters; a stalled write eventually fails; select! fairness).")
 TRUSTED = ['dropping a tokio Sender wakes and fails its receiver', 'tokio select!/scheduler fairness']
 UNDECIDED = ['liveness under the scheduler', 'fault injection at every byte boundary (dynamic notion)']
@@ -229,6 +229,24 @@ def run(ctx):
                 if v and v != 'LdapOp::Single':
                     ctx.add('L5.ack-reached', v, loc(arm['body']), not hirq.diverges(arm['body']) and L.before(mm, a),
                             'the %s arm never reaches the acknowledgement: its caller would wait forever' % v)
+
+    # ---- L9 Unbind ends the driver: after the transport was shut down nothing more can arrive that the client should wait for;
+    # a driver that goes on polling keeps every reply sender alive, so operations still waiting hang for as long as the peer
+    # keeps its side of the connection open.  On every path of the request arm on which the operation is Unbind the loop is left.
+    VARS = ('LdapOp::Single', 'LdapOp::Search', 'LdapOp::Abandon', 'LdapOp::Unbind')
+    n_unbind = 0
+    for o in driver.arm_paths(C, 'request')[0]:
+        known = {}
+        for a, t in o.st.pc:
+            if a[0] == 'is' and a[2] in VARS and sem.has(a[1], lambda x: x == driver.ARM):
+                known[a[2]] = t
+        is_unbind = known.get('LdapOp::Unbind') is True or all(known.get(v) is False for v in VARS[:3])
+        if not is_unbind:
+            continue
+        n_unbind += 1
+        ctx.add('L9.unbind-ends-the-driver', 'request arm|' + o.kind, loc(req['body']), o.kind in ('brk', 'ret'),
+                'after an Unbind the driver loop goes on (path ends in `%s`): operations still waiting for a response are not failed but hang until the peer closes its side of the connection' % o.kind)
+    ctx.floor('L9', 'paths of the request arm for Unbind', n_unbind, 1)
 
     # ---- L6 a driver that hands the connection back (the one-operation mode used while StartTLS is negotiated: its caller keeps
     # the returned connection, and with it the routing maps) must not do so while a caller still waits for a reply: the waiting
